@@ -290,7 +290,7 @@ PROPS = {
         "rule": "as C06: one history per evaluator instance; distinct = distinct history lines",
     },
     "C18": {
-        "lean": ["OxiModel.Props.C18"],
+        "lean": ["OxiModel.Props.C18", "OxiModel.Props.C18Roundtrip"],
         "streams": [{"name": "corr-geom", "quick": 60, "thorough": 600}],
         "oracles": [],
         "claim": "Lean 4 theorems for ALL w>=1, h>=1, bpp>=1 (no bound): the scan-line iterator run over data of the header-implied size yields exactly the specification's rows "
@@ -304,8 +304,13 @@ PROPS = {
                 "table's shifts and steps), incrementPass_is_spec (for every w, h >= 1 the next pass is the next non-empty one of the specification, or the end), pixel_in_exactly_its_pass and "
                 "adam7Order_each_once (for all sizes every pixel position occurs exactly once in the Adam7 storage order, in the pass interlace_image picks). interlace_is_spec_bytes: for pixels of whole bytes (8/16-bit samples) and every size, interlace_image writes pass after pass, row "
                 "after row, exactly the pixels on the pass's lattice, whole and in order (block-filter lemma over the bit stream, bytesOfBits∘bitsOf = id). interlace_row_pixels: at ANY bit depth the bits a row contributes to a pass are its pixels on the "
-                "lattice, whole and in order, padding never selected. The de-interlacing state machine itself "
-                "(their composition to the identity) rest on the exhaustive-up-to-bound correspondence and the direct comparison with specification-derived placement in the same stream. "
+                "lattice, whole and in order, padding never selected. ROUND TRIP (Props/C18Roundtrip.lean): deinterlace_interlace_bytes - for every width, height >= 1, every colour type and every pixel of a whole "
+                "number of bytes, deinterlace_image(interlace_image(i)) = i (header and every data byte, neither function panicking), proved by running the de-interlacing state machine (deStep = the loop of "
+                "deinterlace_bytes with increment_pass and the constants table, modelled literally) over the lines the scan-line iterator cuts from the interlaced data: invariant 'the working lines agree with the "
+                "original wherever something was written' (every write puts the original's value: scatter_agrees), one pass = induction over its rows (run_pass_rows), the chain over passes by strong induction with "
+                "increment_pass = next non-empty pass (run_from_pass), every position written by the pass of its pixel (all_covered), and interlace_image's output shown to be exactly those lines (interlaceData_eq). "
+                "Still resting on the exhaustive-up-to-bound correspondence: the same round trip for pixels of 1, 2 and 4 bits (deinterlace_bits; its row-level bit selection is proved, the machine run is not) and the "
+                "opposite order (interlace after deinterlace of arbitrary interlaced data). "
                 "Trusted: Lean kernel, correspondence tie (tested), harness reference geometry.",
         "technique": "Lean 4 proof (omega over unbounded sizes) + exhaustive-to-bound model/implementation correspondence",
         "rule": "all (w,h) in 1..24 (thorough 1..72) x legal colour-type/depth pairs x interlaced/not x with/without filter byte, plus sparse large sizes and "
